@@ -4,6 +4,7 @@ CFG = dict(
                   "SaramaVerif.Props.C03", "SaramaVerif.Bridge.C03"],
     lean_support=["SaramaVerif.GoSem", "SaramaVerif.Model.ConsumerParseWire", "SaramaVerif.Gen.C03"],
     model="C03",
+    overlay=["sim", "c03"],
     required_theorems=["Props.C03.consume_prefix", "Props.C03.delivered_is_stored", "Props.C03.step_window",
                        "Props.C03.run_window", "Props.C03.consume_progress", "Props.C03.unproductive_keeps_offset",
                        "Props.C03.partial_grows_fetch_size", "Props.C03.too_large_skips_one", "Props.C03.fetch_max_guard",
@@ -36,7 +37,9 @@ CFG["manifest"] = dict(
          "Tie: loop-free fragments of consumer.go (chooseStartingOffset switch, fetch-size doubling block, offset arithmetic, len==0 bumps, v1 rebasing + timestamp rule) are "
          "re-translated from /repo on every run and proved equal to the model (bridge); the loops and the decoder are tied by differential execution: generated logs x formats x "
          "codecs x Kafka 0.8.2-2.8, real FetchResponse encode -> real decode -> real parseResponse vs the compiled model, plus property oracles on the real output and an end-to-end "
-         "stream (real Consumer against MockBroker with faults and a slow reader).",
+         "stream (real Consumer against MockBroker with faults and a slow reader) and consumer scenarios against the simulated cluster (harness/cons: several partitions per broker, slow readers that "
+         "get unsubscribed, connection drops / silent brokers / error codes on fetches, leader moves, appends while consuming; oracle: per partition the deliveries are the log from the start offset, "
+         "in order, once, unaltered, and delivery does not stall while the partition is reachable).",
     note="Trusted: Lean kernel; translator tools/extract + GoSem.lean; harness/line protocol; the abstract view of the decoder (what FetchResponseBlock.decode keeps) is tied by "
          "correspondence only. Modelled not verified: broker behaviour (FaithfulData hypothesis), int64 non-overflow. Not modelled: goroutine pipeline, real time "
          "(MaxProcessingTime ticker), several partitions per broker - observed end-to-end only. Known finding: inner messages of a log-append v1 wrapper get the producer's timestamp.",
